@@ -44,7 +44,7 @@ def gen_case(rng, maxlen=6, kind=None):
             # wrappers only: this letter is handed over as a BLANK (a legal symbol of a string, tuple or list)
             "blank": rng.choice(alpha) if rng.random() < 0.3 else None,
             # ... or as a combining mark (a str input must be taken code point by code point, not normalised)
-            "blank_char": rng.choice([" ", " ", "\u0303", "\u0301"])}
+            "blank_char": rng.choice([" ", " ", "\u0303", "\u0301", "ts", "t\u02b0"])}
     return case
 
 
@@ -59,8 +59,9 @@ def run_impl(case):
     kind = case["kind"]
     scorer = {k: float(v) for k, v in case["scorer"].items()}
     gap = float(case["gap"])
-    bl = case.get("blank") if case["wrapper"] else None
     bc = case.get("blank_char", " ")
+    multi = len(bc) > 1       # a multi-character TOKEN (lists / tuples only; also through the direct functions)
+    bl = case.get("blank") if (case["wrapper"] or multi) else None
     to_b = lambda x: bc if x == bl else x
     unb = lambda row: [bl if x == bc else x for x in row]
     if bl:
@@ -70,7 +71,7 @@ def run_impl(case):
         if case["wrapper"]:
             f = getattr(pw, kind + "_align")
             # the wrappers accept strings, tuples or lists
-            a, b = ("".join(sa), "".join(sb)) if case["default_scorer"] else (tuple(sa), tuple(sb))
+            a, b = ("".join(sa), "".join(sb)) if (case["default_scorer"] and not (bl and multi)) else (tuple(sa), tuple(sb))
             out = f(a, b) if case["default_scorer"] else f(a, b, scorer=scorer, gap=gap)
             if bl and kind == "nw":
                 out = (unb(out[0]), unb(out[1]), out[2])
@@ -80,6 +81,12 @@ def run_impl(case):
                 out = [(unb(x), unb(y), z) for x, y, z in out]
         else:
             out = getattr(malign, kind + "_align")(sa, sb, scorer, gap)
+            if bl and kind == "nw":
+                out = (unb(out[0]), unb(out[1]), out[2])
+            elif bl and kind == "sw":
+                out = (tuple(unb(p) for p in out[0]), tuple(unb(p) for p in out[1]), out[2])
+            elif bl:
+                out = [(unb(x), unb(y), z) for x, y, z in out]
         if kind == "nw":
             return {"out": {"kind": "global", "almA": _row(out[0]), "almB": _row(out[1]), "sim": F(out[2])}}
         if kind == "sw":
@@ -90,7 +97,8 @@ def run_impl(case):
     if kind == "ed":
         if case["wrapper"]:
             d = pw.edit_dist(sa, sb)
-            dn = pw.edit_dist("".join(sa), "".join(sb), normalized=True) if (sa or sb) else None
+            dn = pw.edit_dist(*(("".join(sa), "".join(sb)) if not (bl and multi) else (tuple(sa), tuple(sb))),
+                              normalized=True) if (sa or sb) else None
         else:
             d = malign.edit_dist(sa, sb, False)
             dn = malign.edit_dist(sa, sb, True) if (sa or sb) else None
